@@ -412,6 +412,27 @@ func genWire(repo string) (string, error) {
 	}
 	fmt.Fprintf(&b, "Definition gen_server_dispatch : list (N * (string * string)) :=\n  %s.\n\n", coqList(disp))
 
+	// Normalised source text of the hand-modelled primitive layer: a rewrite
+	// of any of these functions breaks gen_codec_src_frozen, and the check
+	// then searches for a concrete failing frame.
+	var srcs []string
+	for _, f := range [][2]string{
+		{"decoder", "read"}, {"decoder", "rest"}, {"decoder", "u8"}, {"decoder", "u64"},
+		{"decoder", "bytes"}, {"decoder", "str"}, {"decoder", "end"}, {"decoder", "tailError"},
+		{"encoder", "write"}, {"encoder", "u64"}, {"encoder", "u8"}, {"encoder", "bytes"}, {"encoder", "str"},
+		{"remoteErr", "encodeTo"}, {"remoteErr", "decodeFrom"}, {"", "encodeRemoteErr"}, {"", "decodeRemoteErr"},
+		{"endpointExchange", "encodeTo"}, {"", "sendExchangeReq"},
+		{"endpointServer", "startCall"}, {"endpointServer", "handleRead"}, {"tunnel", "Read"},
+	} {
+		fd := p.funcDecl(f[0], f[1])
+		txt := "MISSING"
+		if fd != nil && fd.Body != nil {
+			txt = p.src(fd.Body)
+		}
+		srcs = append(srcs, fmt.Sprintf("(%s, %s)", coqStr(f[0]+"."+f[1]), coqStr(txt)))
+	}
+	fmt.Fprintf(&b, "Definition gen_codec_src : list (string * string) :=\n  %s.\n\n", coqList(srcs))
+
 	fmt.Fprintf(&b, "Definition gen_alloc_max : N := %s.\n", coqN(consts["decodeAllocMax"]))
 	fmt.Fprintf(&b, "Definition gen_max_read_size : N := %s.\n", coqN(consts["maxReadSize"]))
 	return b.String(), nil
